@@ -48,6 +48,12 @@ CHECKS = {
              'a reference Schnorr signature passed back with --sig must give a transaction accepted by the reference validator and by btcdeb.',
         note='trusted: ref/taproot.py, ref/sighash.py, ref/secp.py, ref/codec.py; single-input transactions only',
         ref='5 C06'),
+    'C07': dict(
+        technique='runtime monitoring: reference-grammar monitor over Value::parse_args+serialize (harness) and the real btcc binary (ASan+UBSan build)',
+        text='Exploration with exhaustive sub-domains: every opcode name in both spellings and all OP_xNN escapes, all 1-byte and all 2-byte hex literals (65,792), hex literals of every length 0..89 and the 255/256/520 boundaries, '
+             'decimals at every 2^k+-2, nesting depth 0..8, multi-argument bracket groups, and random sequences of 1..40 tokens; the output must equal the bytes the reference grammar prescribes, decode back to the same operation sequence and contain only minimal pushes.',
+        note='trusted: ref/asm.py (the grammar as the property states it: digit-only = decimal, hex literal = minimal-form push of exactly those bytes, bracket = push of the compiled body)',
+        ref='5 C07'),
     'C10': dict(
         technique='runtime monitoring: lock-step reference-model monitor over Instance::step() traces of boundary scripts (ASan+UBSan build)',
         text='Exploration over a deterministic boundary matrix: for each consensus limit (520-byte push, 1000 stack+altstack items, 201 counted ops incl. multisig key counts, 20 multisig keys, 10,000-byte scripts, 4/5-byte numeric operands) '
